@@ -1047,6 +1047,105 @@ def gen_probe(rng, s, entry=None):
     raise KeyError(entry)
 
 
+# ------------------------------------------------------------------------------ systematic sweeps
+# Random mutation can miss a type; these sweeps visit every specimen of every type deterministically.
+
+SWEEP_TOKENS = ["", "0", "-1", "255", "256", "65535", "65536", "4294967295", "4294967296", "281474976710656", '""', '"', "\\", "\\#",
+                "\\# 1", "(", ")", ";", ".", "@", "a", "\\000", "\\256", "\xe9", "\u0663", "*" , "x" * 64, "x." * 130, "::", "1.2.3", "1.2.3.4.5",
+                "=", "key0=", "AAAA", "A", "0x", "+1", "1e9", "00000000000000000000001"]
+SWEEP_BYTES = [0x00, 0x01, 0x3F, 0x40, 0x7F, 0x80, 0xC0, 0xFF]
+
+
+def sweep_probes(s, what):
+    """deterministic probes: what in {"text", "wire", "msg"}"""
+    import struct
+
+    if what == "text":
+        for rdclass, rdtype, text, _ in s.rdatas:
+            if not text:
+                continue
+            toks = _tok_re.findall(text)
+            idx = [i for i, t in enumerate(toks) if t.strip()]
+            for i in idx:
+                for rep in SWEEP_TOKENS:
+                    t2 = "".join(toks[:i] + [rep] + toks[i + 1:])
+                    yield "rdata_text", [rdclass, rdtype, t2, 1, 1]
+                # drop the token, duplicate it, cut the text inside it
+                yield "rdata_text", [rdclass, rdtype, "".join(toks[:i] + toks[i + 1:]), 0, 0]
+                yield "rdata_text", [rdclass, rdtype, "".join(toks[:i + 1] + [" "] + toks[i:]), 0, 0]
+                yield "rdata_text", [rdclass, rdtype, "".join(toks[:i]) + toks[i][: max(1, len(toks[i]) // 2)], 2, 1]
+            # the same record as a zone line and as a message line
+            tn = dns.rdatatype.to_text(rdtype)
+            yield "zone_text", ["$ORIGIN example.\n@ 300 IN SOA ns1 h 1 2 3 4 5\n@ NS ns1\nx 300 " + tn + " " + text + "\n", 1, 1, 1]
+            yield "zone_text", ["x " + tn + " " + text, 1, 0, 0]
+            yield "read_rrsets", ["x 300 " + tn + " " + text, 0, 1, 0]
+            yield "msg_text", ["id 1\nopcode QUERY\nflags QR\n;QUESTION\nx.example. IN " + tn + "\n;ANSWER\nx.example. 300 IN " + tn + " " + text + "\n", 1, 1, 0]
+    elif what == "wire":
+        for rdclass, rdtype, _, w in s.rdatas:
+            for n in range(len(w) + 1):
+                yield "rdata_wire", [rdclass, rdtype, w[:n], 0, n, 0]
+            for i in range(min(len(w), 48)):
+                for b in SWEEP_BYTES + [(w[i] + 1) % 256, (w[i] - 1) % 256]:
+                    w2 = w[:i] + bytes([b]) + w[i + 1:]
+                    yield "rdata_wire", [rdclass, rdtype, w2, 0, len(w2), 1]
+            yield "rdata_wire", [rdclass, rdtype, w + b"\0", 0, len(w) + 1, 0]
+            yield "rdata_wire", [rdclass, rdtype, w, 0, len(w) + 1, 0]
+            yield "rdata_wire", [rdclass, rdtype, b"\x03www\x00" + w, 5, len(w), 2]
+    elif what == "msg":
+        q = b"\x03www\x07example\x00" + struct.pack("!HH", 255, 1)
+        for rdclass, rdtype, _, w in s.rdatas:
+            if rdtype == 41:
+                owner, cls_ = b"\0", 1232
+                counts = (0, 0, 1)
+            elif rdtype == 250:
+                owner, cls_ = b"\x07keyname\0", 255
+                counts = (0, 0, 1)
+            else:
+                owner, cls_ = b"\xc0\x0c", rdclass
+                counts = (1, 0, 0)
+            rr = owner + struct.pack("!HHIH", rdtype, cls_, 0 if rdtype == 250 else 300, len(w)) + w
+            good = b"\xc0\x0c" + struct.pack("!HHIH", 1, 1, 300, 4) + b"\x0a\0\0\x01"
+            if counts[0]:
+                body, cn = rr + good, (2, 0, 0)
+            else:
+                body, cn = good + rr, (1, 0, 1)
+            full = struct.pack("!HHHHHH", 7, 0x8180, 1, *cn) + q + body
+            step = 1 if len(full) < 120 else 3
+            for n in range(12, len(full) + 1, step):
+                for bits in (0, 8, 8 | 1 | 64, 4 | 0x0200):
+                    yield "msg_wire", [full[:n], bits]
+            # rdlen off by one in both directions, in strict and continue_on_error mode
+            pos = full.find(rr) + len(owner) + 8
+            for d in (-1, 1, 255):
+                ln = (len(w) + d) % 65536
+                f2 = full[:pos] + struct.pack("!H", ln) + full[pos + 2:]
+                for bits in (0, 8, 2 | 8):
+                    yield "msg_wire", [f2, bits]
+
+
+def sweep_batch(args):
+    """worker: (what, shard, nshards) -> (counts, fails)"""
+    what, shard, nshards = args
+    s = load_seeds()
+    counts = {}
+    fails = []
+    hangs = 0
+    for i, (e, p) in enumerate(sweep_probes(s, what)):
+        if i % nshards != shard:
+            continue
+        out, f = run_probe(e, p)
+        k = "sweep-" + what + ":" + out.split(":")[0]
+        counts[k] = counts.get(k, 0) + 1
+        if f is not None:
+            if len(fails) < 200:
+                fails.append(f)
+            if f["kind"] == "hang":
+                hangs += 1
+                if hangs >= 3:
+                    break
+    return counts, fails
+
+
 # ------------------------------------------------------------------------------ batch worker
 
 
